@@ -181,8 +181,17 @@ def merge_states(states):
             for k2 in extra:
                 s.heap.setdefault(k2, None)
         base = states[0]
-    if any(s.locals.keys() != base.locals.keys() or s.ghost.keys() != base.ghost.keys() for s in states[1:]):
+    if any(s.ghost.keys() != base.ghost.keys() for s in states[1:]):
         return None
+    if any(s.locals.keys() != base.locals.keys() for s in states[1:]):
+        # a local bound on some paths only: after the join it may only be read where it is bound
+        from .stmt import MAYBE
+        allnames = set().union(*[set(s.locals) for s in states])
+        states = list(states)
+        for s in states:
+            for nme in allnames:
+                s.locals.setdefault(nme, MAYBE)
+        base = states[0]
 
     def m(vals):
         if any(isinstance(v, VSeq) for v in vals) and any(isinstance(v, VRef) for v in vals):
@@ -195,6 +204,9 @@ def merge_states(states):
                 continue
             if isinstance(v, V) and isinstance(r, V):
                 r = ite(d, v, r)
+            elif isinstance(v, V) or isinstance(r, V):
+                from .stmt import MAYBE
+                r = MAYBE       # bound on some paths, unbound on others
             else:
                 raise MergeError("marker")
         return r
